@@ -92,9 +92,9 @@ def bound_power(
     """
     # update subcomponents
     if max is not None:
-        pos = bound_upper_power(param, pos, max, upper_power)
+        pos = bound_upper_power(param, pos, max, power=upper_power)
     if min is not None:
-        neg = bound_lower_power(param, neg, min, lower_power)
+        neg = bound_lower_power(param, neg, min, power=lower_power)
 
     # combined update
     return pos - neg
@@ -193,9 +193,13 @@ def bound_scaled_power(
     """
     # update subcomponents
     if max is not None:
-        pos = bound_upper_scaled_power(param, pos, max, upper_power, max - min)
+        pos = bound_upper_scaled_power(
+            param, pos, max, power=upper_power, range=max - min
+        )
     if min is not None:
-        neg = bound_lower_scaled_power(param, neg, min, lower_power, max - min)
+        neg = bound_lower_scaled_power(
+            param, neg, min, power=lower_power, range=max - min
+        )
 
     # combined update
     return pos - neg
